@@ -271,9 +271,12 @@ def r10b(ctx: Context) -> None:
                 rule.fail(akey, site.where, f"'Fixed:' is printed under {sorted(leaves)}, which is not the fixed flag handed up from {wanted_here[5:]}")
                 continue
             rule.ok(akey, f"guarded by {flag_leaf}")
-            flag_leaf = [leaf for leaf in {l for elt in (returns_of(driver)[0].elts if returns_of(driver) and isinstance(returns_of(driver)[0], ast.Tuple) else []) for l in provenance(prog, driver, elt)} if leaf.startswith(driver_want.split("[")[0])] or flag_leaf
+            # the return that hands back the flags accumulated over the files (an early return for the single stdin
+            # document gives its pair directly)
+            rets = [r for r in returns_of(driver) if isinstance(r, ast.Tuple)]
+            rets = [r for r in rets if all(isinstance(e, ast.Name) for e in r.elts)] or rets
+            flag_leaf = [leaf for leaf in {l for elt in (rets[0].elts if rets else []) for l in provenance(prog, driver, elt)} if leaf.startswith(driver_want.split("[")[0])] or flag_leaf
             # per-run flag (returned index by role from C18) is set under the same guard
-            rets = returns_of(driver)
             if rets and isinstance(rets[0], ast.Tuple):
                 run_leaves = [provenance(prog, driver, elt) for elt in rets[0].elts]
                 if not any(set(flag_leaf) & leaves_i for leaves_i in run_leaves):
